@@ -101,6 +101,13 @@ def real(case):
 
     def run():
         obj = mh.LumpedStateTraj([np.array(t) for t in case['macro']], [np.array(t) for t in case['micro']], positive=case['positive'])
+        # the estimate at one lag time must not depend on what the same object estimated before: every other case first asks the
+        # object for another lag time (result discarded; it may legitimately be refused)
+        if sum(len(t) for t in case['micro']) % 2 == 0:
+            try:
+                obj.estimate_markov_model(case['lag'] + 1)
+            except Exception:  # noqa
+                pass
         T, st = obj.estimate_markov_model(case['lag'])
         T = np.asarray(T, dtype=np.float64)
         if not np.all(np.isfinite(T)):
